@@ -567,6 +567,69 @@ func pointLife(c *ctx, r *rand.Rand) {
 			}
 		}
 	}
+	// ... and a ZERO-VALUE Point (never initialised) as the receiver of every operation that writes its receiver without reading it:
+	// afterwards it is an ordinary, usable object
+	{
+		zops := []string{"set", "neg_from", "cneg_from", "cneg_from", "dbl_from", "setbytes", "smul_from", "dsm_from", "bmul", "identity", "generator", "setbytes_id", "add_from", "sub_from", "csel_from", "msm_from"}
+		for si := range sources {
+			for oi, op := range zops {
+				obj = new(secp256k1.Point)
+				src := sources[si]()
+				srcKind = srcKinds[si]
+				se := enc(src)
+				sv, tv := randBig(r, bigN), randBig(r, bigN)
+				cw := lifeCtrls[(si+oi)%len(lifeCtrls)]
+				if op == "cneg_from" {
+					cw = lifeCtrls[(oi%2)*(1+si%(len(lifeCtrls)-1))]
+				}
+				raw := ""
+				pn := catch(func() {
+					switch op {
+					case "set":
+						obj.Set(src)
+					case "neg_from":
+						obj.Negate(src)
+					case "cneg_from":
+						obj.ConditionalNegate(src, cw)
+					case "dbl_from":
+						obj.Double(src)
+					case "setbytes":
+						b := src.CompressedBytes()
+						if (si+oi)%2 == 0 {
+							b = src.UncompressedBytes()
+						}
+						raw = hx(b)
+						_, _ = obj.SetBytes(b)
+					case "smul_from":
+						obj.ScalarMult(scFrom(sv), src)
+					case "dsm_from":
+						obj.DoubleScalarMultBasepointVartime(scFrom(sv), scFrom(tv), src)
+					case "bmul":
+						obj.ScalarBaseMult(scFrom(sv))
+					case "identity":
+						obj.Identity()
+					case "generator":
+						obj.Generator()
+					case "setbytes_id":
+						raw = "00"
+						_, _ = obj.SetBytes([]byte{0})
+					case "add_from":
+						obj.Add(src, src)
+					case "sub_from":
+						obj.Subtract(src, secp256k1.NewGeneratorPoint())
+					case "csel_from":
+						obj.ConditionalSelect(src, secp256k1.NewGeneratorPoint(), cw)
+					case "msm_from":
+						obj.MultiScalarMult([]*secp256k1.Scalar{scFrom(sv), scFrom(tv)}, []*secp256k1.Point{src, src})
+					}
+					observe(op, se, h32(sv), h32(tv), raw, b2i(cw != 0))
+				})
+				if pn {
+					c.E("lib.Unexpected", "what", "a zero-value Point used as a RECEIVER ("+op+") is not a usable object afterwards")
+				}
+			}
+		}
+	}
 	for round := 0; round < c.scale(10, 60); round++ {
 		si0 := r.Intn(len(sources))
 		obj = sources[si0]()
